@@ -83,9 +83,16 @@ round of seeded changes: sibling agreement of the ten forward/reflected operator
 pairs and of the start/stop halves of slice normalisation (against the shape of
 `slice.indices`), non-negativity of every splice index, stale-accumulator reads
 and insert order in shape inference. (c) was written after the first batch of
-seeded changes for this property was missed completely (0 of 4); all four are
-caught now, and a second independent batch is used to measure how far that
-generalises (section 6b).""",
+seeded changes for this property was missed completely (0 of 4). The second,
+independent batch was missed completely again (0 of 4): inference code breaks in
+its arithmetic and its bookkeeping, not at the anchors. What that batch prompted
+are the two most general rules of this property: the finite abstract evaluation
+of every broadcasting decision tree (equal / new length 1 / remembered length 1
+/ neither; it also covers the einsum subscript normalisation, a sibling
+implementation of broadcasting that three different sub-agents broke
+independently) and the memoisation rule (no `lru_cache`/`memoize` on an argument
+that may be a Python scalar: 1 == 1.0 == True are one key). Still missed: the
+length formula of `arange` for negative integer steps.""",
     "C04": """
 The strongest claim of the set: for every concrete kind the equality handler the
 dispatcher selects is analysed with two roots, and must read every dataclass
@@ -94,8 +101,12 @@ the same path on both sides, and be a conjunction; everything hashed is compared
 hand-written hashes aggregate mappings order-free; pickling carries fields only.
 Five genuine defects of exactly the kind the property file predicted ("a field
 ignored by one handler") were found and fixed. Exemptions (4): `NamedCallResult`
-`axes`/`tags` are derived from the call by construction. One seeded miss:
-a NaN guard narrowed to `float`, which is a value-level condition.""",
+`axes`/`tags` are derived from the call by construction. Two independent
+sub-agents narrowed the same NaN test to some scalar types; the anchor R04-NAN
+was written after the second. After round b: handlers compare structurally only
+(a semantic predicate such as `are_shapes_equal` equates what hashes
+differently), and neither the comparer nor the node classes keep state that
+outlives a call (an id()-keyed class-level memo answers for dead objects).""",
     "C05": """
 No-mutation is an effect analysis over every function of the transformation
 modules in alias-only mode, with a canary package (`pta/fixtures/nomut`) that
@@ -138,8 +149,13 @@ sequence agreement on `rank == root` branches, exception edges included); the
 part builder turns every communication node into a placeholder; both ends of a
 message are renumbered through one first-seen mapping built from an ordered
 collection on the root and broadcast; names and outputs of a part come from one
-mapping; (second round) the placement bound is a minimum over all dependent
-sends and the verifier resolves inputs against all parts.""",
+mapping; (after round a) the placement bound is a minimum over all dependent
+sends and the verifier resolves inputs against all parts; (after round b) the
+dependency mappers the partitioner places arrays with include the node itself,
+the table of generated names starts empty, and sent and received arrays cannot
+share a generated name -- the last rule reported a genuine defect (a rank that
+forwards a received array unchanged got a part whose output name equals its
+receive name; the verifier rejected the correct program), fixed in `8b8d291`.""",
     "C10": """
 Decided: every diagnostic the property names has a raise site reachable in the
 call graph from the two entry points with no handler in between that swallows
@@ -151,8 +167,10 @@ built only by the helpers that reject the local rank; the depth-first search
 tests, marks, then recurses; the root broadcasts a scheduling exception before
 re-raising; accumulated part-graph edges are never reassigned; the allreduce
 operator is a key-wise union; the loop over the broadcast schedule is guarded by
-globally agreed values only. Not decided: that every malformed pattern is
-caught.""",
+globally agreed values only; the partitioner and verifier keep no state that
+outlives a call. Round b: 3 of 4 caught at first run (by the rules written after
+round a), the fourth (a mutable default argument) by the state rule. Not decided:
+that every malformed pattern is caught.""",
     "C11": """
 Not applicable. Containment of every affine access in its array's extent for all
 loop-index and size-parameter valuations is a Presburger question about
@@ -179,7 +197,10 @@ cause): no traversal descends into `CSRMatrix.shape` (symbolic shape of a sparse
 matrix); a repair touches every traversal family and changes what `CopyMapper`
 copies, so it is recorded rather than patched. Exemptions (31) are the
 deviations the code documents (function bodies entered through clones,
-`EinsumDistributiveLawMapper` not descending into shapes, ...).""",
+`EinsumDistributiveLawMapper` not descending into shapes, ...). Round b: 3 of 4 at
+first run; added: lookup and insertion of a visit key in one table, shared
+containers kept while empty (`x or set()` drops them), no mapper state outliving
+a call.""",
     "C14": """
 Decided: every NumPy name the emitter can produce (tables, c99 names through
 `_c99_callop_numpy_name`, literals) is in `numpy.__all__` (read from the installed
@@ -205,9 +226,10 @@ shape-typed operand in the package; it must be inside the decision procedure,
 compare with a literal, or have both operands proven integers; the decision
 procedure forms the difference and every way out of it is integer equality under
 the isinstance guard or `is_cst() and is_zero()` over a sorted parameter space;
-symbolic components enter lowered lambdas under generator-made names. Three raw
-comparisons in the reshape helpers are reviewed (reshape rejects symbolic axes
-first). Not decided: that one kernel is right for every size (values) --
+symbolic components enter lowered lambdas under generator-made names; broadcasting
+decision trees are evaluated abstractly (shared with C03); only a comparison with
+`()` counts as an exact literal comparison. Eight raw comparisons in the reshape
+helpers are reviewed (reshape rejects symbolic axes first). Not decided: that one kernel is right for every size (values) --
 the two remaining seeded misses are of that kind (roll modulo, einsum broadcast
 bookkeeping).""",
     "C17": """
@@ -223,8 +245,11 @@ logical order) and for numpy scalars (dtype: decided by reading, up the MRO,
 pytato's, loopy's and pytools' updater sources); the annotation closure from
 every node kind reaches only classes the key builder handles completely;
 explicit updaters feed every compared field whole, write no shared state, use no
-process-dependent digest and iterate nothing unordered. Two genuine collisions
-fixed.""",
+process-dependent digest and iterate nothing unordered (also not in a "small set"
+fast path of an updater for sets); no class of the expression tree answers
+unknown attributes dynamically. Three genuine defects fixed, one of them
+introduced by the first repair (numpy integers must stay interchangeable with
+Python ints; pytools says so in a comment).""",
     "C19": """
 `pytato/raising.py` is excluded from the project's own type checking, which is
 why arity errors survived there. Decided: every `HighLevelOp(...)` construction
@@ -243,5 +268,8 @@ nodes, `LoopyCallResult`) and `DictOfNamedArrays._data` for which the users
 collectors register nothing, and `UsersCollector` registers fewer users for
 `Call.bindings` than the list collector. Changing user counts changes
 materialisation decisions (MPMS), so this is recorded, not patched
-(`triage/c20_converse.py`).""",
+(`triage/c20_converse.py`). After round b (1 of 4 at first run): the users graph
+is connected at every kind (a node registers for each child or below it; a
+`NamedCallResult` stands in for its `Call`), dependency sets contain the node,
+the predecessor getters keep nothing between calls.""",
 }
